@@ -13,6 +13,7 @@ import (
 	"encoding/hex"
 	"encoding/json"
 	"fmt"
+	"math/rand"
 	"net"
 	"os"
 	"os/exec"
@@ -48,8 +49,8 @@ var tokenRE = regexp.MustCompile(`^[0-9a-v]{20}$`)
 
 type run struct {
 	Services []string `json:"services"`
-	Stop     string   `json:"stop"` // term | kill
-	KillAt   int      `json:"kill_at_ms,omitempty"`   // >0: SIGKILL this many ms after exec (interrupted start)
+	Stop     string   `json:"stop"`                      // term | kill
+	KillAt   int      `json:"kill_at_ms,omitempty"`      // >0: SIGKILL this many ms after exec (interrupted start)
 	KillSys  int      `json:"kill_at_syscall,omitempty"` // >0: strace-injected SIGKILL at the k-th matching syscall
 	// >0: the injected SIGKILL is restricted (strace -P) to system calls that touch the KillPath-th identity
 	// file of the data directory, as discovered by tracing one complete first start; KillSys counts those
@@ -57,10 +58,10 @@ type run struct {
 }
 
 type scenario struct {
-	Kind    string `json:"kind"` // history | token-state | random-kill | syscall-kill | agent
-	Token   string `json:"token_state,omitempty"` // "absent" | "" | prefix
-	TokenSet bool  `json:"token_set,omitempty"`
-	Runs    []run  `json:"runs"`
+	Kind     string `json:"kind"`                  // history | token-state | random-kill | syscall-kill | agent
+	Token    string `json:"token_state,omitempty"` // "absent" | "" | prefix
+	TokenSet bool   `json:"token_set,omitempty"`
+	Runs     []run  `json:"runs"`
 }
 
 var allSvc = []string{"telnet", "ssh-simulator", "ftp", "smtp", "ldap"}
@@ -102,13 +103,15 @@ func scenarios(tier string, seed int64) []scenario {
 	}
 	// kills at the k-th system call that touches an identity file (token, its temporary, ...): every
 	// intermediate on-disk state of those files that a kill can leave, without naming the files here
-	np, nk2 := 3, 8
+	np, nk2 := 4, 10
 	if tier == "thorough" {
-		np, nk2 = 4, 14
+		np, nk2 = 5, 16
 	}
 	for pi := 1; pi <= np; pi++ {
 		for k := 1; k <= nk2; k++ {
-			svcs := []string{"telnet"}
+			// all services: the key-value store's value log is one of the files, and every stored identity
+			// item (host key, key and certificate of ftp, smtp, ldap) is one write to it
+			svcs := allSvc
 			out = append(out, scenario{Kind: "path-kill", Runs: []run{{Services: svcs, KillSys: k, KillPath: pi}, {Services: svcs, Stop: "kill"}, {Services: svcs, Stop: "term"}}})
 		}
 	}
@@ -136,15 +139,24 @@ type ports struct {
 	Telnet, SSH, FTP, SMTP, LDAP, Agent int
 }
 
+var portRng = rand.New(rand.NewSource(time.Now().UnixNano() ^ int64(os.Getpid())<<20))
+
+// freePorts picks ports below the kernel's ephemeral range (so that no outgoing connection of this machine can
+// take one as its source port) that are free right now. Another scenario running in parallel may still pick
+// the same one later: a start that reports a bind failure is repeated with fresh ports (see runScenario).
 func freePorts() ports {
 	var ls []net.Listener
 	get := func() int {
-		l, err := net.Listen("tcp", "127.0.0.1:0")
-		if err != nil {
-			return 0
+		for try := 0; try < 200; try++ {
+			port := 10000 + portRng.Intn(22000)
+			l, err := net.Listen("tcp", fmt.Sprintf("127.0.0.1:%d", port))
+			if err != nil {
+				continue
+			}
+			ls = append(ls, l)
+			return port
 		}
-		ls = append(ls, l)
-		return l.Addr().(*net.TCPAddr).Port
+		return 0
 	}
 	p := ports{get(), get(), get(), get(), get(), get()}
 	for _, l := range ls {
@@ -417,6 +429,7 @@ type runObs struct {
 	Tokens    []string          `json:"tokens"` // distinct tokens seen in this run's events
 	TokenFile string            `json:"token_file"`
 	Tail      string            `json:"tail,omitempty"`
+	PortClash int               `json:"port_clashes,omitempty"` // starts repeated because a port had been taken meanwhile
 	KillPath  string            `json:"killed_at_access_to,omitempty"`
 	Died      bool              `json:"died_before_ready,omitempty"`
 }
@@ -439,7 +452,7 @@ func identityPaths() []string {
 	os.MkdirAll(filepath.Join(dir, "data"), 0755)
 	defer os.RemoveAll(dir)
 	p := freePorts()
-	cfg := config(dir, p, []string{"telnet"}, false)
+	cfg := config(dir, p, allSvc, false)
 	os.MkdirAll(filepath.Join(dir, "ftproot"), 0755)
 	cfgPath := filepath.Join(dir, "config.toml")
 	os.WriteFile(cfgPath, []byte(cfg), 0644)
@@ -460,9 +473,9 @@ func identityPaths() []string {
 	b, _ := os.ReadFile(trace)
 	prefix := filepath.Join(dir, "data") + "/"
 	seen := map[string]bool{}
-	for _, m := range regexp.MustCompile(regexp.QuoteMeta(prefix)+`([^"/]+)"`).FindAllSubmatch(b, -1) {
+	for _, m := range regexp.MustCompile(regexp.QuoteMeta(prefix)+`([^"/]+|badger\.db/[^"/]+\.vlog)"`).FindAllSubmatch(b, -1) {
 		rel := string(m[1])
-		if strings.HasPrefix(rel, "badger.db") || seen[rel] {
+		if seen[rel] {
 			continue
 		}
 		seen[rel] = true
@@ -531,13 +544,28 @@ func runScenario(k int, sc scenario) scnObs {
 			continue
 		}
 		var pr *proc
-		for attempt := 0; attempt < 3; attempt++ {
+		for attempt := 0; attempt < 6; attempt++ {
 			var err error
 			pr, err = start(binPath(), dir, cfg, 0, "")
 			if err != nil {
 				continue
 			}
-			if waitPort(readyPort, pr, 20*time.Second) {
+			up := waitPort(readyPort, pr, 20*time.Second)
+			if b, _ := os.ReadFile(pr.out); bytes.Contains(b, []byte("address already in use")) {
+				// a port of this scenario was taken (by a scenario running in parallel) between two of its
+				// runs: the server runs without that listener and whatever answers on the port is not it.
+				// Harness matter: same data directory, fresh ports, once more
+				pr.stop("kill")
+				p = freePorts()
+				cfg = config(dir, p, r.Services, sc.Kind == "agent")
+				readyPort = p.Telnet
+				if sc.Kind == "agent" {
+					readyPort = p.Agent
+				}
+				ro.PortClash++
+				continue
+			}
+			if up {
 				ro.Up = true
 				break
 			}
